@@ -24,6 +24,15 @@ def branch_divider(state):
     return [{'u': state['u'], 'w': 0}, {'u': 0, 'w': state['w']}]
 
 
+def first_gets_all(state):
+    return [state, 0]
+
+
+# registered under a main name AND an alternate name (Registry.register(..., alternate_keys=...)): both names mean this divider
+if divider_registry.access('c11_first_gets_all') is None:
+    divider_registry.register('c11_first_gets_all', first_gets_all, alternate_keys=['c11_all_to_first'])
+
+
 def agent_schema(vals):
     return {
         'n': {'_default': vals['n'], '_divider': 'split', '_emit': True},
@@ -40,6 +49,8 @@ def agent_schema(vals):
         'c': {'_default': 10, '_divider': {'divider': custom_divider, 'config': {'offset': 3}}},
         'grp': {'_divider': branch_divider, 'u': {'_default': 4}, 'w': {'_default': 6}},
         'plain': {'_default': 1},
+        'gm': {'_default': 6, '_divider': 'c11_first_gets_all'},
+        'ga': {'_default': 8, '_divider': 'c11_all_to_first'},
     }
 
 
@@ -237,6 +248,9 @@ def check(sd):
     if d1['vel'] != [0.0, 0.0] or d2['vel'] != [0.0, 0.0] or tuple(d1['pair']) != ('x', 'y') or tuple(d2['pair']) != ('x', 'y'):
         fails.append('set_value divider configured with a pair: daughters start with vel %r / %r and pair %r / %r, configured [0.0, 0.0] and (x, y)'
                      % (d1['vel'], d2['vel'], d1['pair'], d2['pair']))
+    if (d1['gm'], d2['gm'], d1['ga'], d2['ga']) != (mother['gm'], 0, mother['ga'], 0):
+        fails.append('a divider registered under a main and an alternate name: divided by the main name %r -> %r / %r, by the alternate '
+                     'name %r -> %r / %r; it promises [all, 0]' % (mother['gm'], d1['gm'], d2['gm'], mother['ga'], d1['ga'], d2['ga']))
     if d1['tags'] != {} or d2['tags'] != {}:
         fails.append('set_value divider: daughters did not start from the configured value: %r / %r' % (d1['tags'], d2['tags']))
     if set(d1['sd']) & set(d2['sd']) or set(d1['sd']) | set(d2['sd']) != set(mother['sd']) or \
